@@ -9,7 +9,7 @@ ASSUMPTIONS = ["time fields below 24 h; temperature in tenths 0..65535; remote i
                "mode / fan bytes outside the tables follow the code's defaults and are compared with the model only"]
 RULE = ("replies built by the Spec encoders from random field values with random filler and random trailing length, for the four "
         "reply kinds, parsed by the response classes directly and through get_state / get_shutter_state / get_breeze_state against a "
-        "scripted device; the four captured replies of the repository; non-trivial = distinct replies")
+        "scripted device; the four captured replies of the repository; watts_to_amps on all 65536 wattages against the bit-exact model; non-trivial = distinct replies")
 REQUIREMENT = "response object fields = the encoded fields (Entry.e_reply_encode: expected text next to the reply bytes)"
 KIND_OF = {0: 11, 1: 9, 2: 10}
 CLS = {0: SwitcherStateResponse, 1: SwitcherShutterStateResponse, 2: SwitcherThermostatStateResponse}
@@ -83,6 +83,19 @@ def run(tier, rnd, out):
     cs = [mk(k) for k in (0, 1, 2) for _ in range(40 if tier == "quick" else 1000)]
     run_stream(out, "through-the-state-queries", cs, through_api=True)
     captured(out)
+    amps_sweep(out)
+
+
+def amps_sweep(out):
+    """watts_to_amps on every 16-bit wattage against the bit-exact float model; the Spec (|w - 22 t| <= 11) judges too"""
+    from aioswitcher.device.tools import watts_to_amps
+    ws = list(range(65536)); got = []
+    for k in range(0, 65536, 4096):
+        got += [x for x in lib.run_model([lib.req("amps", ws[k:k + 4096])])[0].split(",") if x]
+    cases = [{"watts": w} for w in ws]
+    io = [str(round(watts_to_amps(w) * 10)) for w in ws]
+    ex = [i if abs(w - 22 * int(i)) <= 11 else "a tenth t with |watts - 22 t| <= 11" for w, i in zip(ws, io)]
+    lib.differential(out, "amps-every-wattage", cases, io, got, ex, lambda c: "watts_to_amps(%d)" % c["watts"], nontrivial=lambda c: c["watts"] % 22 == 11)
 
 
 def replay(rp, out):
